@@ -4,4 +4,4 @@ C=$(head -1 "$3")
 j() { echo "$C" | jq -r "$1"; }
 T=$(j .term); TT=""; [ "$T" != "1073741824" ] && TT="--term-time $T"
 SA=$(j .stopat); ST=""; [ "$SA" != "-1" ] && ST="--stop-at $SA"
-exec "$1" --model "$2" --out "$4" --threads $(j .threads) --ckpt $(j .ckpt) --batch $(j .batch) --gvt-period $(j .period) --seed $(j .seed) --prng $(j .prng) --switch $(j .sw) --policy $(j .policy) --skew $(j .skew) $TT $ST
+exec "$1" --model "$2" --out "$4" --threads $(j .threads) --ckpt $(j .ckpt) --batch $(j .batch) --gvt-period $(j .period) --seed $(j .seed) --prng $(j .prng) --switch $(j .sw) --policy $(j .policy) --skew $(j .skew) --park $(j .park) $TT $ST
